@@ -16,7 +16,8 @@ RULE = ("Case = one container (17 kinds: file.blocks, file.sections, block.{data
         "create/duplicate/delete steps with names from a hostile pool (names that sort differently from creation "
         "order, UUID look-alikes, non-ASCII, blanks, '..', 300-1000 characters); deletes addressed by name, id, index, "
         "negative index and object; sizes cross HDF5's compact/dense link storage switch (8 links).  After every step "
-        "all access paths are compared with the model.  Distinct by (container kind, multiset of name classes, delete "
+        "all access paths are compared with the model (positions also as NumPy integers; the ids and names of deleted members must find nothing, also "
+        "once the name has been given to a new member).  Distinct by (container kind, multiset of name classes, delete "
         "addressing modes used, size bucket); trivial = none.")
 ASSUMPTIONS = ["legal names: non-empty, no '/', not '.', no NUL",
                "re-appending a member to a link list either leaves the list as it is or moves the entry to the end (A19)",
